@@ -3,6 +3,7 @@ import copy
 import warnings
 
 import numpy as np
+import pandas as pd
 
 from .. import attach, gen, monitors, pipeline, poollog, refs
 from ..attach import count, violation
@@ -37,6 +38,11 @@ def mon_recompute_edges(result, pre, *a, **k):
         count('C16:unreadable_table')
         return
     n = len(pre)
+    if len(result) == n and list(result.index) != list(pre.index):
+        violation(PROP, 'row-labels-changed', 'input rows %s, result rows %s' % (list(pre.index)[:5], list(result.index)[:5]))
+        return
+    if not isinstance(pre.index, pd.RangeIndex) or (n and pre.index[0] != 0):
+        count('C16:table_with_its_own_row_labels')
     if len(result) != n or list(result.columns) != list(pre.columns):
         violation(PROP, 'rows-or-columns-changed', 'input %d rows %d columns, result %d rows %d columns'
                   % (n, len(pre.columns), len(result), len(result.columns)))
@@ -134,6 +140,9 @@ def one(sh, case, driver='generated'):
         sh.case_done(case, False)
         return
     red = {k: (v - r if k.endswith('threshold') else v) for k, v in thr.items()}
+    if case.get('index') and case.get('api') != 'obj' and len(df):
+        # a table that carries its own row labels (it was stored / selected from a longer table): rows are positional
+        df.index = pd.RangeIndex(11, 11 + len(df)) if case['index'] == 'offset' else pd.Index(np.arange(len(df)) * 2 + 1)
     before = dict(attach.COUNTS)
     old = df['is_burst'].to_numpy().astype(bool).copy()
     res = None
@@ -233,7 +242,8 @@ def run(sh):
                    period_consistency_threshold=float(rng.choice([.3, .5, .7])), monotonicity_threshold=float(rng.choice([.3, .5, .7])),
                    min_n_cycles=int(rng.choice([1, 2, 3])))
         case = {'sig': sig, 'fs': fs, 'f_range': (lo, hi), 'center': str(rng.choice(['peak', 'trough'])), 'thr': thr,
-                'reduction': float(rng.choice([0, 0, .05, .1, .2])), 'api': 'func' if rng.random() < 0.75 else 'obj', 'family': fam}
+                'reduction': float(rng.choice([0, 0, .05, .1, .2])), 'api': 'func' if rng.random() < 0.75 else 'obj', 'family': fam,
+                'index': [None, None, None, 'offset', 'gaps'][int(rng.integers(0, 5))]}
         one(sh, case)
         if it % 10 == 0:
             rows = [gen.gen_signal(rng, fs, lo, hi, 3.0, 'bursty')[0][:int(3 * fs) - 2] for _ in range(3)]
